@@ -591,6 +591,12 @@ impl<'a, 'e> Ev<'a, 'e> {
                         V::boolean(truthy(&lv) != truthy(&rv))
                     }
                     Bin::Pair => V::pair(lv, rv),
+                    Bin::Concat => {
+                        if lv.has_unknown() || rv.has_unknown() {
+                            return Ok(V::Unknown);
+                        }
+                        V::Concat(Box::new(lv), Box::new(rv))
+                    }
                     Bin::Access => {
                         if lv.has_unknown() || rv.has_unknown() {
                             return Ok(V::Unknown);
